@@ -1,6 +1,6 @@
 (* C10 — drange enumerates exactly t0, t0+bump, ... up to t1 for every kind of bump. *)
 From Coq Require Import ZArith List Bool Lia Sorted.
-From PB Require Import model.M_cal model.M_dates model.M_drange proofs.P_drange.
+From PB Require Import model.M_cal model.M_dates model.M_drange proofs.P_drange proofs.P_drange_int.
 Import ListNotations.
 Open Scope Z_scope.
 
@@ -63,6 +63,24 @@ Theorem C10_b_all_weekdays fuel t0 t1 n l : t0 <> t1 -> drange fuel t0 t1 (BTok 
     Forall (fun t => weekday t <= 4) l.
 Proof. exact (drange_b_weekdays fuel t0 t1 n l). Qed.
 Print Assumptions C10_b_all_weekdays.
+
+(* integer bumps: the (daily rrule, reversed, strided) list IS the iteration of "+ n days" from t0;
+   backwards this needs endpoints a whole number of days apart, exactly as the property states *)
+Theorem C10_int_forward_is_iteration fuel t0 t1 n l : t0 < t1 -> 0 < n ->
+  drange fuel t0 t1 (BInt n) = Ok l -> iter_up (fun t => Some (t + n * DAYUS)) t1 t0 l.
+Proof. exact (drange_int_forward fuel t0 t1 n l). Qed.
+Print Assumptions C10_int_forward_is_iteration.
+Theorem C10_int_backward_is_iteration fuel t0 t1 n l : t1 < t0 -> n < 0 -> (t0 - t1) mod DAYUS = 0 ->
+  drange fuel t0 t1 (BInt n) = Ok l -> iter_down (fun t => Some (t + n * DAYUS)) t1 t0 l.
+Proof. exact (drange_int_backward fuel t0 t1 n l). Qed.
+Print Assumptions C10_int_backward_is_iteration.
+(* integer n, timedelta(n) and 'nd' give identical lists *)
+Theorem C10_int_td_nd_same fuel t0 t1 n l l2 l3 :
+  t0 <> t1 -> (t1 < t0 -> (t0 - t1) mod DAYUS = 0) ->
+  drange fuel t0 t1 (BInt n) = Ok l -> drange fuel t0 t1 (BTd (n * DAYUS)) = Ok l2 ->
+  drange fuel t0 t1 (BTok [(n, UD)]) = Ok l3 -> l = l2 /\ l = l3.
+Proof. exact (drange_int_td_nd_same fuel t0 t1 n l l2 l3). Qed.
+Print Assumptions C10_int_td_nd_same.
 
 Example C10_example :
   let t0 := us_of_ord 737504 in let t1 := us_of_ord 737439 in   (* 2020-03-20 back to 2020-01-15 *)
